@@ -49,6 +49,9 @@ Performance: 100x faster than SQLFluff for equivalent operations`,
 
 func formatRun(cmd *cobra.Command, args []string) error {
 	// Handle stdin input
+	if err := rejectInputsNextToStdin(args); err != nil {
+		return err
+	}
 	if ShouldReadFromStdin(args) {
 		return formatFromStdin(cmd)
 	}
